@@ -1,6 +1,12 @@
 // qxv carbons — drives a real QXmppClient with QXmppCarbonManagerV2 ("v2") or QXmppCarbonManager
 // ("v1") installed along behaviours of spec/Carbons.tla (property C11).
 //
+// "estab" (optional, default "configured"): how the own address of the session comes about.  "configured": the
+// application's JID is used as it is (session faked).  "bound<R>": the client goes through RFC 6120 resource binding
+// on the real receive path -- <stream:features><bind/></stream:features> is injected, the client sends its bind
+// request, the harness answers <iq type='result'><bind><jid>USER@DOMAIN/RESOURCE</jid></bind></iq> with a resource of
+// class R (Plain, Slash: contains '/', At: contains '@', Unicode, Long) -- and the own bare JID (ground truth of the
+// sender classes) is what RFC 7622 makes of that JID: everything before the FIRST '/'.
 // Behaviour: {"gen":"v1|v2","jidcfg":"plain|nores|mixed",
 //             "steps":[{"a":"Recv","c":<sender class>,"w":<wrapper>,"i":<inner kind>} |
 //                      {"a":"Reconfigure","j":"plain|nores|mixed","how":"setJid|setUserDomain|assign|copySetJid"},...]}
@@ -197,6 +203,17 @@ QStringList spellings(const QString &cls, const Env &e, Rnd &r, int nRandom)
         addIfNot(swapCase(B));
         addIfNot(e.local + "@" + swapCase(e.domain));
         addIfNot(swapCase(e.local) + "@" + e.domain);
+    } else if (cls == "OwnFullPrefix") {
+        // bound resource with a '/': the own bare JID plus the first resource segment(s)
+        const int slash = e.R.indexOf('/');
+        if (slash < 0) {
+            fprintf(stderr, "carbons: OwnFullPrefix without a slash in the resource\n");
+            exit(2);
+        }
+        l << B + "/" + e.R.left(slash);
+        if (e.R.lastIndexOf('/') != slash) {
+            l << B + "/" + e.R.left(e.R.lastIndexOf('/'));
+        }
     } else if (cls == "OwnFullSelf") {
         l << B + "/" + e.R;
     } else if (cls == "OwnFullOther") {
@@ -349,7 +366,10 @@ void runBehaviour(Ctx &ctx, const QString &caseId, const QJsonObject &b, int nRa
     e.client = std::make_unique<TestClient>(TestClient::NoExtensions, jidOfCfg(jidcfg));
     auto &c = *e.client;
     e.readIdentity();
-    c.fakeSession();
+    const auto estab = b.contains("estab") ? b["estab"].toString() : QStringLiteral("configured");
+    if (estab == "configured") {
+        c.fakeSession();
+    }
 
     if (gen == "v2") {
         c.addNewExtension<QXmppCarbonManagerV2>();
@@ -367,7 +387,55 @@ void runBehaviour(Ctx &ctx, const QString &caseId, const QJsonObject &b, int nRa
         e.shown.append({ "client", msg });
     });
 
-    ctx.reset(caseId, { { "gen", gen }, { "jidcfg", jidcfg }, { "own", e.B } });
+    bool bound = true;
+    QString boundJid;
+    if (estab != "configured") {
+        // resource the server assigns
+        QString res;
+        if (estab == "boundPlain") {
+            res = "srv-" + r.word();
+        } else if (estab == "boundSlash") {
+            res = r.n(2) ? QString("QXmpp/7f3a") : r.word() + "/" + r.word() + (r.n(2) ? "/" + r.word() : QString());
+        } else if (estab == "boundAt") {
+            res = r.n(2) ? QString("dev@home") : r.word() + "@" + r.word() + ".example";
+        } else if (estab == "boundUnicode") {
+            res = QString::fromUtf8("b\xc3\xbcro-\xe6\xbc\xa2-") + r.word();
+        } else if (estab == "boundLong") {
+            while (res.size() < 300) {
+                res += r.word() + "-";
+            }
+        } else {
+            fprintf(stderr, "carbons: unknown way to establish the address %s\n", qPrintable(estab));
+            exit(2);
+        }
+        boundJid = e.B + "/" + res;
+        // authenticated stream, then the server offers resource binding
+        c.streamPrivate()->isAuthenticated = true;
+        c.takeSent();
+        c.inject("<stream:features><bind xmlns=\"urn:ietf:params:xml:ns:xmpp-bind\"/></stream:features>");
+        QString bindId;
+        for (const auto &raw : c.takeSent()) {
+            if (raw.contains("urn:ietf:params:xml:ns:xmpp-bind")) {
+                bindId = QxvXml(raw).el.attribute("id");
+            }
+        }
+        bound = !bindId.isEmpty();
+        if (bound) {
+            c.inject("<iq type=\"result\" id=\"" + esc(bindId) + "\"><bind xmlns=\"urn:ietf:params:xml:ns:xmpp-bind\"><jid>" +
+                     esc(boundJid) + "</jid></bind></iq>");
+            QCoreApplication::processEvents();
+            c.takeSent();
+            // ground truth (RFC 7622): bare JID = everything before the first '/', resource = the rest; the account
+            // (local part, domain) is the one that was configured
+            e.R = res;
+            bound = c.streamPrivate()->sessionStarted;
+        }
+    }
+
+    ctx.reset(caseId, { { "gen", gen }, { "jidcfg", jidcfg }, { "estab", estab }, { "own", e.B }, { "bound", boundJid }, { "session", bound } });
+    if (!bound) {
+        return;  // the client did not take the bind result (it diverged): nothing can be delivered on this stream
+    }
 
     int n = 0;
     for (const auto &sv : steps) {
